@@ -50,11 +50,11 @@ impl Parser for File {
     fn parse(input: &str) -> IResult<&str, File> {
         let mut t: File = Default::default();
 
+        // leading blanks are skipped once up front, so that a document consisting only of
+        // whitespace and comments reaches `eof` instead of failing to find an item
+        let (input, _) = opt(blank)(input)?;
         let (remain, items) = many_till(
-            map(
-                tuple((opt(blank), Item::parse, opt(blank))),
-                |(_, item, _)| item,
-            ),
+            map(tuple((Item::parse, opt(blank))), |(item, _)| item),
             eof,
         )(input)?;
 
